@@ -72,6 +72,29 @@ func (e *Exec) strBinop(op token.Token, x, y *StrV) Value {
 			return cbool(a >= b)
 		}
 	}
+	if (op == token.EQL || op == token.NEQ) && (x.OID != nil && y.C != nil || y.OID != nil && x.C != nil) {
+		a, c := x, y
+		if y.OID != nil {
+			a, c = y, x
+		}
+		r := oidEqualsDotted(a.OID, *c.C)
+		if op == token.NEQ {
+			r = bnot(r)
+		}
+		return r
+	}
+	if (op == token.EQL || op == token.NEQ) && x.OID != nil && y.OID != nil {
+		r := cbool(len(x.OID) == len(y.OID))
+		if len(x.OID) == len(y.OID) {
+			for i := range x.OID {
+				r = band(r, bvbin(token.EQL, x.OID[i], y.OID[i], false).(*BoolV))
+			}
+		}
+		if op == token.NEQ {
+			r = bnot(r)
+		}
+		return r
+	}
 	if (op == token.EQL || op == token.NEQ) && (len(x.Alts) > 0 && y.C != nil || len(y.Alts) > 0 && x.C != nil) {
 		a, c := x, y
 		if len(y.Alts) > 0 {
@@ -354,4 +377,25 @@ func (e *Exec) strRangeNext(it *mapIter, site string) Value {
 	k := e.concretize(sz, 5)
 	it.spos = cbv(uint64(p+k), 64)
 	return &TupleV{E: []Value{cbool(true), cbv(uint64(p), 64), r}}
+}
+
+// oidEqualsDotted: the dotted-decimal rendering of arcs equals the constant s
+// exactly when s is the canonical rendering of the same arcs.
+func oidEqualsDotted(arcs []*BV, s string) *BoolV {
+	parts := strings.Split(s, ".")
+	if s == "" {
+		return cbool(len(arcs) == 0)
+	}
+	if len(parts) != len(arcs) {
+		return cbool(false)
+	}
+	r := cbool(true)
+	for i, p := range parts {
+		n, err := strconv.ParseUint(p, 10, 63)
+		if err != nil || strconv.FormatUint(n, 10) != p {
+			return cbool(false)
+		}
+		r = band(r, bvbin(token.EQL, arcs[i], cbv(n, arcs[i].W), false).(*BoolV))
+	}
+	return r
 }
